@@ -199,12 +199,206 @@ def build(chk):
         for dim in dims:
             run_type(chk, type_mom, dim, 2 if (type_mom, dim) == ("cartesian", 3) else 1)
     validation(chk)
+    order_generator(chk)
+
+
+def order_generator(chk):
+    """generate_orders_horton_order for a symbolic order: number of rows and the content of every row (loop contracts, functional cut points).
+        cartesian, dim 3   (o+1)(o+2)/2 rows; row T(a)+b = (o-a, a-b, b), 0 <= b <= a <= o, T(a) = a(a+1)/2   [m_x descending, then m_y descending]
+        cartesian, dim 2   o+1 rows, row a = (o-a, a);   dim 1: one row (o)
+        pure               2o+1 rows: (o, 0), then (o, x), (o, -x) for x = 1..o
+        pure-radial        o^2 rows: degree l = 0..o-1 starts at l^2: (o, l, 0), then (o, l, m), (o, l, -m) for m = 1..l"""
+    from pyvc import lazyseq as LZ
+    eng = chk.eng
+    fq = "grid.utils.generate_orders_horton_order"
+    o = z3.Int("order")
+    a0, b0, c0 = z3.Ints("a0 b0 c0")
+    ROW = z3.Function("spec_row", IS, IS, IS)           # (row, column) of the specified output
+    rep = {"what": "orders"}
+
+    TRI = z3.Function("triangular_number", IS, IS)       # T(a) = a(a+1)/2, by its defining equation 2 T(a) = a (a+1)
+
+    def tri(a):
+        return TRI(T.zi(a))
+
+    def tri_def(*xs):
+        return [2 * TRI(T.zi(x)) == T.zi(x) * (T.zi(x) + 1) for x in xs]
+
+    def spec_axioms(kind, a, b):
+        a, b = T.zi(a), T.zi(b)
+        if kind == "cart3":
+            return [z3.Implies(z3.And(0 <= b, b <= a, a <= o), z3.And(ROW(tri(a) + b, 0) == o - a, ROW(tri(a) + b, 1) == a - b, ROW(tri(a) + b, 2) == b)),
+                    ] + tri_def(a, a + 1, o + 1)
+        if kind == "cart2":
+            return [z3.Implies(z3.And(0 <= a, a <= o), z3.And(ROW(a, 0) == o - a, ROW(a, 1) == a))]
+        if kind == "pure":
+            return [z3.And(ROW(0, 0) == o, ROW(0, 1) == 0),
+                    z3.Implies(z3.And(1 <= a, a <= o), z3.And(ROW(2 * a - 1, 0) == o, ROW(2 * a - 1, 1) == a, ROW(2 * a, 0) == o, ROW(2 * a, 1) == -a))]
+        # pure-radial: a = degree l, b = order m
+        return [z3.Implies(z3.And(0 <= a, a < o), z3.And(ROW(a * a, 0) == o, ROW(a * a, 1) == a, ROW(a * a, 2) == 0)),
+                z3.Implies(z3.And(0 <= a, a < o, 1 <= b, b <= a),
+                           z3.And(ROW(a * a + 2 * b - 1, 0) == o, ROW(a * a + 2 * b - 1, 1) == a, ROW(a * a + 2 * b - 1, 2) == b,
+                                  ROW(a * a + 2 * b, 0) == o, ROW(a * a + 2 * b, 1) == a, ROW(a * a + 2 * b, 2) == -b))]
+
+    def list_len(v):
+        return len(v) if isinstance(v, list) else v.length
+
+    def spec_list(n, ncol):
+        return LZ.SymList(n, lambda r: I.Arr((ncol,), lambda c, r=r: ROW(T.zi(r), T.zi(c)), "int"), lens=lambda r: ncol)
+
+    def row_eq(fr, nrows, ncol):
+        """the list `orders` has nrows rows and its generic row r0 (< nrows) is the specified one"""
+        v = fr.load_name("orders")
+        out = [T.zi(list_len(v)) == nrows]
+        if not isinstance(v, list):
+            it = v.item(r0)
+            out.append(z3.Implies(z3.And(r0 >= 0, r0 < nrows), z3.And(z3.BoolVal(it.ndim == 1 and M.dim_eq(it.shape[0], ncol)), *[T.zi(it.fn(c)) == ROW(r0, c) for c in range(ncol)])))
+        return z3.And(*out)
+    r0 = z3.Int("r0")
+    cases = [("cartesian", 3, "cart3", 3), ("cartesian", 2, "cart2", 2), ("pure", 3, "pure", 2), ("pure-radial", 3, "purerad", 3)]
+    for typ, dim, kind, ncol in cases:
+        name = f"generate_orders_horton_order/{typ}-{dim}d" if typ == "cartesian" else f"generate_orders_horton_order/{typ}"
+
+        def thunk(eng_, typ=typ, dim=dim, kind=kind, ncol=ncol):
+            eng_.assume(z3.And(o >= 0, r0 >= 0))
+            if kind == "cart3":
+                # outer: k values of m_x done (m_x = o .. o-k+1, i.e. a = 0..k-1): T(k) rows; inner at a = k: b rows more
+                def inv_o(fr, kk):
+                    return row_eq(fr, tri(kk), ncol)
+
+                def hav_o(fr, nm, old):
+                    return spec_list(tri(outer.k), ncol) if nm == "orders" else None
+                outer = I.LoopSpec(inv_o, havoc=hav_o, name="m_x", modifies=["orders"])
+
+                def inv_i(fr, jj):
+                    return row_eq(fr, tri(outer.k) + T.zi(jj), ncol)
+
+                def hav_i(fr, nm, old):
+                    return spec_list(tri(outer.k) + inner.k, ncol) if nm == "orders" else None
+                inner = I.LoopSpec(inv_i, havoc=hav_i, name="m_y", modifies=["orders"])
+                eng_.loop_specs[(fq, 1)] = outer
+                eng_.loop_specs[(fq, 2)] = inner
+            elif kind == "cart2":
+                spec = I.LoopSpec(lambda fr, kk: row_eq(fr, T.zi(kk), ncol), havoc=lambda fr, nm, old: spec_list(spec.k, ncol) if nm == "orders" else None,
+                                  name="m_x", modifies=["orders"])
+                eng_.loop_specs[(fq, 1)] = spec
+            elif kind == "pure":
+                spec = I.LoopSpec(lambda fr, kk: row_eq(fr, 2 * T.zi(kk) + 1, ncol), havoc=lambda fr, nm, old: spec_list(2 * spec.k + 1, ncol) if nm == "orders" else None,
+                                  name="orders", modifies=["orders"])
+                eng_.loop_specs[(fq, 1)] = spec
+            else:
+                def inv_o(fr, kk):
+                    return row_eq(fr, T.zi(kk) * T.zi(kk), ncol)
+
+                def hav_o(fr, nm, old):
+                    return spec_list(outer.k * outer.k, ncol) if nm == "orders" else None
+                outer = I.LoopSpec(inv_o, havoc=hav_o, name="degrees", modifies=["orders"])
+
+                def cur(l, j):
+                    return l * l + z3.If(T.zi(j) == 0, 0, 2 * T.zi(j) - 1)
+
+                def inv_i(fr, jj):
+                    return row_eq(fr, cur(outer.k, jj), ncol)
+
+                def hav_i(fr, nm, old):
+                    return spec_list(cur(outer.k, inner.k), ncol) if nm == "orders" else None
+                inner = I.LoopSpec(inv_i, havoc=hav_i, name="orders", modifies=["orders"])
+                eng_.loop_specs[(fq, 1)] = outer
+                eng_.loop_specs[(fq, 2)] = inner
+            try:
+                return eng_.call(eng_.get_function("grid.utils", "generate_orders_horton_order"), [o, typ, dim])
+            finally:
+                eng_.loop_specs.pop((fq, 1), None)
+                eng_.loop_specs.pop((fq, 2), None)
+        nund = len(chk.undecided)
+        outs = chk.explore(name, thunk, func=fq)
+        if len(chk.undecided) == nund:
+            ok = any(x.kind == "return" for x in outs) and any(x.kind == "end" for x in outs) and not any(x.kind == "raise" for x in outs)
+            chk.add(f"{name}/paths/loop-exit-and-loop-step-explored-no-raise", [], z3.BoolVal(ok), func=fq,
+                    meta={"replay": rep, "paths": str(sorted({(x.kind, x.note, x.exc) for x in outs}, key=str))})
+        for oi, x in enumerate(outs):
+            kv = sorted([u for u in T.subterms(z3.And(*[h for h in x.pc if T.is_sym(h)] + [z3.BoolVal(True)])).values() if z3.is_const(u) and u.decl().name().startswith("k!")],
+                        key=lambda u: int(u.decl().name().split("!")[1]))
+            defs = []
+            pts = [(a0, b0)]
+            if kind in ("cart3", "purerad") and len(kv) >= 2:
+                pts.append((kv[0], kv[1]))
+            if kind in ("cart3", "purerad") and len(kv) >= 1:
+                pts.append((kv[0], 0))
+            if kind in ("cart2", "pure") and kv:
+                pts.append((kv[0], 0) if kind == "cart2" else (kv[0] + 1, 0))
+            for (a, b) in pts:
+                defs += spec_axioms(kind, a, b)
+            if kind == "cart3":
+                defs += tri_def(0)
+            for ob in x.obligations:
+                ob.hyps = list(ob.hyps) + defs
+            chk.add_from_path(f"{name}/path{oi}", x, func=fq, meta={"replay": rep})
+            if x.kind in ("return", "end"):
+                chk.canary(name, list(x.pc))
+            if x.kind != "return":
+                continue
+            out = x.value
+            hy = list(x.pc) + spec_axioms(kind, a0, b0)
+            total = {"cart3": tri(o + 1), "cart2": o + 1, "pure": 2 * o + 1, "purerad": o * o}[kind]
+            chk.add(f"{name}/post/number-of-rows", hy + tri_def(o + 1),
+                    z3.And(z3.BoolVal(out.ndim == 2 and M.dim_eq(out.shape[1], ncol)), T.zi(out.shape[0]) == total), func=fq, meta={"replay": rep})
+            if kind == "cart3":
+                rng = [0 <= b0, b0 <= a0, a0 <= o]
+                steps = [("row-below-the-next-triangular-number", tri(a0) + b0 < tri(a0 + 1)),
+                         ("difference-of-the-doubled-triangular-numbers", (o + 1) * (o + 2) - (a0 + 1) * (a0 + 2) == (o - a0) * (o + a0 + 3)),
+                         ("which-is-non-negative", (o - a0) * (o + a0 + 3) >= 0),
+                         ("triangular-numbers-are-monotone", tri(a0 + 1) <= tri(o + 1))]
+                pos = tri(a0) + b0
+                goal = z3.And(T.zi(out.fn(pos, 0)) == o - a0, T.zi(out.fn(pos, 1)) == a0 - b0, T.zi(out.fn(pos, 2)) == b0)
+            elif kind == "cart2":
+                rng, steps, pos = [0 <= a0, a0 <= o], [], a0
+                goal = z3.And(T.zi(out.fn(pos, 0)) == o - a0, T.zi(out.fn(pos, 1)) == a0)
+            elif kind == "pure":
+                rng, steps = [1 <= a0, a0 <= o], []
+                goal = z3.And(T.zi(out.fn(0, 0)) == o, T.zi(out.fn(0, 1)) == 0, T.zi(out.fn(2 * a0 - 1, 1)) == a0, T.zi(out.fn(2 * a0, 1)) == -a0,
+                              T.zi(out.fn(2 * a0 - 1, 0)) == o, T.zi(out.fn(2 * a0, 0)) == o)
+            else:
+                rng = [0 <= a0, a0 < o, 1 <= b0, b0 <= a0]
+                steps = [("rows-of-degree-a0-below-the-next-square", z3.And(a0 * a0 + 2 * b0 <= a0 * a0 + 2 * a0, a0 * a0 + 2 * a0 < (a0 + 1) * (a0 + 1))),
+                         ("squares-are-monotone", (a0 + 1) * (a0 + 1) <= o * o)]
+                goal = z3.And(T.zi(out.fn(a0 * a0, 1)) == a0, T.zi(out.fn(a0 * a0, 2)) == 0, T.zi(out.fn(a0 * a0 + 2 * b0 - 1, 2)) == b0,
+                              T.zi(out.fn(a0 * a0 + 2 * b0, 2)) == -b0, T.zi(out.fn(a0 * a0 + 2 * b0 - 1, 1)) == a0, T.zi(out.fn(a0 * a0 + 2 * b0, 0)) == o)
+            chk.chain(f"{name}/post/every-row-is-the-documented-order-at-its-position", hy + rng, steps, goal, func=fq, meta={"replay": rep})
+
+    # one-dimensional Cartesian, radial, argument validation
+    def t_misc(eng_, what):
+        eng_.assume(o >= 0)
+        f = eng_.get_function("grid.utils", "generate_orders_horton_order")
+        if what == "cart1":
+            return eng_.call(f, [o, "cartesian", 1])
+        if what == "radial":
+            return eng_.call(f, [o, "radial"])
+        if what == "bad-type":
+            return eng_.call(f, [o, "spherical"])
+        if what == "bad-dim":
+            return eng_.call(f, [o, "cartesian", 4])
+        return eng_.call(f, [T.from_float(2.0), "cartesian"])
+    for what in ("cart1", "radial"):
+        outs = chk.explore(f"generate_orders_horton_order/{what}", lambda e, what=what: t_misc(e, what), func=fq)
+        rets = [x for x in outs if x.kind == "return"]
+        good = len(rets) == 1 and len(outs) == 1
+        goal = z3.BoolVal(False)
+        if good:
+            out = rets[0].value
+            goal = z3.And(z3.BoolVal(out.ndim == (2 if what == "cart1" else 1)), T.zi(out.fn(0, 0) if what == "cart1" else out.fn(0)) == o,
+                          z3.BoolVal(M.dim_eq(out.shape[0], 1)))
+        chk.add(f"generate_orders_horton_order/{what}/post/single-entry-equal-to-the-order", [], goal, func=fq, meta={"replay": rep})
+    for what, exc in (("bad-type", "ValueError"), ("bad-dim", "ValueError"), ("non-integer-order", "TypeError")):
+        outs = chk.explore(f"generate_orders_horton_order/{what}", lambda e, what=what: t_misc(e, what), func=fq)
+        chk.add(f"generate_orders_horton_order/raises/{what}", [], z3.BoolVal(bool(outs) and all(x.kind == "raise" and x.exc == exc for x in outs)), func=fq,
+                meta={"replay": rep})
 
 
 def main(tier="quick", seed=0, bounded=True, proof=True):
     chk = framework.Check("C14", tier, seed, level="proof")
     chk.trusted += [
-        "generate_orders_horton_order enters through its contract (one block of rows per order); its content (documented Horton order) is checked "
+        "generate_orders_horton_order enters Grid.moments through its contract (one block of rows per order, documented row counts); the generator itself is proved separately for a symbolic order (number of rows and content of every row, loop contracts)"
         "exhaustively to order 10 / 40 by the bounded layer, not proved for a symbolic order",
         "solid_harmonics returns the table of regular solid harmonics with rows in Horton order (C08); row(l, m) = l^2 + (0 | 2m-1 | 2|m|)",
         "the loop over orders is executed for orders = 2 (three blocks; two for pure-radial): the per-block argument is independent of the number of blocks",
